@@ -56,5 +56,15 @@ impl Subscriber for LogAll {
 
 /// run `f` on this thread with every log line of the library evaluated and formatted
 pub fn with_logging<R>(f: impl FnOnce() -> R) -> R {
+    // `tracing` caches per call site whether anybody is interested; the cache is not recomputed when a subscriber
+    // goes away, so it is rebuilt here (also on unwind) - otherwise log arguments keep being evaluated in the silent
+    // runs that follow
+    struct Rebuild;
+    impl Drop for Rebuild {
+        fn drop(&mut self) {
+            tracing::callsite::rebuild_interest_cache();
+        }
+    }
+    let _rebuild = Rebuild;
     tracing::subscriber::with_default(LogAll, f)
 }
